@@ -124,11 +124,13 @@ Handler::Handler( std::ostream& os, std::ostream& error_os,
 
    handleStartFlags( flag_set, txt1, txt2);
 
-   if (flag_set & hfUsageHidden)
-      mpUsageParams->setPrintHidden();
-
+   // create the flag argument first: a boolean flag assigns the negation of
+   // the value the variable has at this point
    if (flag_set & hfArgHidden)
       mpUsageParams->addArgumentPrintHidden( *this, "print-hidden");
+
+   if (flag_set & hfUsageHidden)
+      mpUsageParams->setPrintHidden();
 
 } // Handler::Handler
 
@@ -1270,11 +1272,13 @@ void Handler::handleStartFlags( int flag_set, IUsageText* txt1,
    if (flag_set & hfHelpArgFull)
       addArgumentHelpArgument( "help-arg-full", true);
 
-   if (flag_set & hfUsageDeprecated)
-      mpUsageParams->setPrintDeprecated();
-
+   // create the flag argument first: a boolean flag assigns the negation of
+   // the value the variable has at this point
    if (flag_set & hfArgDeprecated)
       mpUsageParams->addArgumentPrintDeprecated( *this, "print-deprecated");
+
+   if (flag_set & hfUsageDeprecated)
+      mpUsageParams->setPrintDeprecated();
 
    if (flag_set & hfUsageShort)
       mpUsageParams->addArgumentUsageShort( *this, "help-short");
